@@ -432,7 +432,7 @@ func Solve(o *Obligation, timeoutS int, confirm bool) *Result {
 		r.Status = st
 		r.Solver = sp.name
 	}
-	if want == "unsat" && r.Status != "unsat" && r.Status != "sat" && len(o.GetVals) > 0 {
+	if want == "unsat" && r.Status != "unsat" && (r.Status != "sat" || len(r.Model) == 0) && len(o.GetVals) > 0 {
 		// no counter-model (quantifiers): look for a *candidate* input in the relaxation without quantified
 		// hypotheses.  It proves nothing; the replay on the real code decides whether it is a failing input.
 		var qf []string
@@ -482,11 +482,20 @@ func parseModel(out string) map[string]string {
 	if idx < 0 {
 		return nil
 	}
-	rest := out[idx+1:]
+	rest := strings.TrimSpace(out[idx+1:])
+	if !strings.HasPrefix(rest, "(") {
+		return nil
+	}
 	m := map[string]string{}
-	// strip outer paren
-	for _, mm := range modelRe.FindAllStringSubmatch(rest, -1) {
-		m[strings.Trim(mm[1], "|")] = normVal(mm[2])
+	t := parseSx(rest)
+	if t == nil {
+		return nil
+	}
+	for _, kv := range t.kids {
+		if kv == nil || len(kv.kids) != 2 {
+			continue
+		}
+		m[strings.Trim(kv.kids[0].String(), "|")] = normVal(kv.kids[1].String())
 	}
 	return m
 }
